@@ -2160,12 +2160,57 @@ def simplify_assignments(func_node):
                         continue
                     elif not isinstance(recv, ast.Name):
                         out.pop()
+                # `a, b = m.span()` -> `a = m.start(); b = m.end()` (m a plain name, targets do not involve it)
+                if isinstance(v, ast.Call) and isinstance(v.func, ast.Attribute) and v.func.attr == "span" and not v.args and not v.keywords \
+                        and isinstance(v.func.value, ast.Name) and len(tg) == 2 and v.func.value.id not in _names(st.targets[0]):
+                    for t, acc in zip(tg, ("start", "end")):
+                        call = ast.Call(func=ast.Attribute(value=ast.Name(id=v.func.value.id, ctx=ast.Load()), attr=acc, ctx=ast.Load()),
+                                        args=[], keywords=[])
+                        a_ = ast.copy_location(ast.Assign(targets=[t], value=call), st)
+                        ast.fix_missing_locations(a_)
+                        out.append(a_)
+                    count[0] += 1
+                    continue
+            # `a = b = E` with E a constant, a name or a match accessor: one assignment per target, left to right
+            if isinstance(st, ast.Assign) and len(st.targets) > 1 and all(isinstance(t, (ast.Name, ast.Attribute)) for t in st.targets) \
+                    and _repeatable(st.value) and not any(_names(t) & _names(st.value) for t in st.targets if isinstance(t, ast.Name)) \
+                    and not any(ast.unparse(t) in {ast.unparse(x) for x in ast.walk(st.value)} for t in st.targets):
+                for t in st.targets:
+                    a_ = ast.copy_location(ast.Assign(targets=[t], value=clone(st.value)), st)
+                    ast.fix_missing_locations(a_)
+                    out.append(a_)
+                count[0] += 1
+                continue
+            # `x += E - x` -> `x = E` (x a name or self.attr, E does not call anything that could write x)
+            if isinstance(st, ast.AugAssign) and isinstance(st.op, ast.Add) and isinstance(st.value, ast.BinOp) and isinstance(st.value.op, ast.Sub) \
+                    and isinstance(st.target, (ast.Name, ast.Attribute)) and ast.unparse(st.value.right) == ast.unparse(st.target) \
+                    and _repeatable(st.value.left):
+                tgt = clone(st.target)
+                a_ = ast.copy_location(ast.Assign(targets=[tgt], value=st.value.left), st)
+                ast.fix_missing_locations(a_)
+                out.append(a_)
+                count[0] += 1
+                continue
             out.append(st)
         return out
     func_node.body = block(func_node.body)
     if count[0]:
         relink(func_node, getattr(func_node, "_parent", None))
     return count[0]
+
+
+def _repeatable(e):
+    """Evaluating e twice gives the same value and has no effect: constants, names, self.attr, match accessors, len() of those."""
+    if isinstance(e, (ast.Constant, ast.Name)):
+        return True
+    if isinstance(e, ast.Attribute):
+        return _repeatable(e.value)
+    if isinstance(e, ast.Call) and isinstance(e.func, ast.Attribute) and e.func.attr in MATCH_ACCESSORS and isinstance(e.func.value, ast.Name) \
+            and not e.keywords and all(isinstance(a, ast.Constant) for a in e.args):
+        return True
+    if isinstance(e, ast.Call) and isinstance(e.func, ast.Name) and e.func.id == "len" and len(e.args) == 1 and not e.keywords:
+        return _repeatable(e.args[0])
+    return False
 
 
 def lift_conditionals(func_node):
